@@ -162,6 +162,54 @@ Theorem C18_lcb_scale_invariant : forall c, 0 < c -> forall eps kappa mu std a,
 Proof. exact ok_lcb_scale. Qed.
 Print Assumptions C18_lcb_scale_invariant.
 
+(* ---- one surrogate object used repeatedly: the code keeps no state between calls but estimators_ and its parameters ---- *)
+(* whatever sequence of fits, warm starts, parameter changes, refilled query buffers and earlier predictions came before,
+   the answer to a predict call is the pure function of the CURRENT floor and trees (no memo, no stale accumulator) *)
+Theorem C18_session_answer : forall s ops r,
+  run s (ops ++ [OPredict r]) =
+  (fst (run s ops), snd (run s ops) ++ [predict r (fst (fst (run s ops))) (snd (fst (run s ops)))]).
+Proof. exact session_answer. Qed.
+Print Assumptions C18_session_answer.
+
+Theorem C18_session_history_independent : forall s s' ops ops' r,
+  fst (run s ops) = fst (run s' ops') ->
+  last (snd (run s (ops ++ [OPredict r]))) [] = last (snd (run s' (ops' ++ [OPredict r]))) [].
+Proof. exact session_history_independent. Qed.
+Print Assumptions C18_session_history_independent.
+
+Theorem C18_session_predict_pure : forall s r1 r2,
+  run s [OPredict r1; OPredict r2] = (s, [predict r1 (fst s) (snd s); predict r2 (fst s) (snd s)]).
+Proof. exact session_predict_pure. Qed.
+Print Assumptions C18_session_predict_pure.
+
+Theorem C18_session_warm_start : forall s extra r,
+  snd (run s [OWarm extra; OPredict r]) = [predict r (fst s) (snd s ++ extra)].
+Proof. exact session_warm. Qed.
+Print Assumptions C18_session_warm_start.
+
+(* warm start / any union of two groups of trees: mean and aleatoric part pool linearly, the epistemic part is the pooled
+   within-group variance plus the between-group term (the law of total variance one level up) *)
+Theorem C18_warm_start_pooling : forall minv a b, a <> [] -> b <> [] ->
+  let na := nQ a in let nb := nQ b in
+  avg (a ++ b) == (na * avg a + nb * avg b) / (na + nb) /\
+  avg_leaf_var minv (a ++ b) == (na * avg_leaf_var minv a + nb * avg_leaf_var minv b) / (na + nb) /\
+  var_of_means (a ++ b) == (na * var_of_means a + nb * var_of_means b) / (na + nb)
+                           + na * nb * ((avg a - avg b) * (avg a - avg b)) / ((na + nb) * (na + nb)).
+Proof. exact pooling. Qed.
+Print Assumptions C18_warm_start_pooling.
+
+Example C18_example_session :
+  let s0 : state := (0, [(1, 16); (7, 16)]) in
+  snd (run s0 [OPredict Disentangled; OWarm [(4, 16)]; OPredict Plain; OSetMinVar (20#1); OPredict WithStd;
+               ORefit [(2, 0)]; OPredict Disentangled; ORequery [(3, 1); (5, 1)]; OReorder [(5, 1); (3, 1)]; OPredict Disentangled])
+  = [[mean3 0 [(1, 16); (7, 16)]; var_al 0 [(1, 16); (7, 16)]; var_ep 0 [(1, 16); (7, 16)]];
+     [mean1 [(1, 16); (7, 16); (4, 16)]];
+     [mean2 (20#1) [(1, 16); (7, 16); (4, 16)]; var_total (20#1) [(1, 16); (7, 16); (4, 16)]];
+     [mean3 (20#1) [(2, 0)]; var_al (20#1) [(2, 0)]; var_ep (20#1) [(2, 0)]];
+     [mean3 (20#1) [(5, 1); (3, 1)]; var_al (20#1) [(5, 1); (3, 1)]; var_ep (20#1) [(5, 1); (3, 1)]]]
+  /\ var_ep 0 [(1, 16); (7, 16); (4, 16)] == 6 /\ var_total (20#1) [(1, 16); (7, 16); (4, 16)] == 26.
+Proof. split; [reflexivity|]. vm_compute. split; reflexivity. Qed.
+
 (* non-vacuity: three trees, one with a (rounding-)negative impurity; floor 1/4.
    mean 2, aleatoric (1/4 + 1/4 + 1)/3 = 1/2, epistemic ((1)^2 + 0 + 1^2)/3 = 2/3, total 7/6 *)
 Example C18_example :
